@@ -3,7 +3,7 @@
    Compiled by setup.sh / the check driver from directory ocaml/gen. *)
 Require Extraction.
 Require ExtrOcamlBasic.
-From WR Require Import Lib.Bits Lib.Codec Mpq.Crypt Mpq.Jenkins Mpq.Sparse Mpq.CompressWrap Mpq.Path Mpq.Chain Mpq.Patch Lib.Md5 Fmt.Wdt Fmt.Wdl.
+From WR Require Import Lib.Bits Lib.Codec Mpq.Crypt Mpq.Jenkins Mpq.Sparse Mpq.CompressWrap Mpq.Path Mpq.Chain Mpq.Patch Mpq.Parallel Lib.Md5 Fmt.Wdt Fmt.Wdl.
 Extraction Language OCaml.
 Extraction "model.ml"
   Crypt.crypt_table Crypt.hash_string Crypt.ref_hash Crypt.encrypt_block Crypt.decrypt_block
@@ -15,4 +15,5 @@ Extraction "model.ml"
   Sparse.sparse_compress Sparse.sparse_decompress CompressWrap.compress CompressWrap.decompress
   CompressWrap.validate_op CompressWrap.adaptive_limit CompressWrap.result_size_ok
   Path.extraction_target Path.old_target_location Path.components
-  Chain.run Chain.from_parallel Chain.lookup Chain.srun Md5.md5 Patch.parse_patch Patch.apply_patch Patch.make_copy_patch Patch.rle_decompress.
+  Chain.run Chain.from_parallel Chain.lookup Chain.srun Md5.md5 Patch.parse_patch Patch.apply_patch Patch.make_copy_patch Patch.rle_decompress
+  Parallel.extract Parallel.spec Parallel.chunks.
